@@ -12,8 +12,9 @@ OPEN_SCOPES = ["list_scope"]
 ENTRY = ("cassis.cas.Cas.__init__/_copy/create_view/get_view/add/remove/select_all/get_document_annotation/"
          "document_language/sofa_* ; cassis.typesystem.FeatureStructure.get_covered_text")
 RULE = (
-    "seeded random histories (quick: <= 14 operations) on a lenient or strict Cas (optionally constructed with "
-    "sofa_string / sofa_mime / document_language) over <= 4 views and <= 6 handles: create_view / get_view through "
+    "seeded random histories (quick: <= 14 operations + tail) on a lenient or strict Cas (optionally constructed with "
+    "sofa_string / sofa_mime / document_language, incl. the given-but-empty sofa_mime='' and document_language='') "
+    "over <= 4 views and <= 6 handles: create_view / get_view through "
     "any live handle (incl. existing / missing names; about 40 % of the create_view calls pass an explicit xmiID and/or "
     "sofaNum: at, shortly above or below the shared generator's next value, so that later adds through any handle run "
     "the generator up to it), add (keep_id on/off, preset and colliding xmi ids, the same "
@@ -24,7 +25,11 @@ RULE = (
     "negative and None offsets, select_all. After EVERY step the state is observed through EVERY live handle (view "
     "name, sofa id/num/text/mime/uri/array, select_all, views, sofas, typesystem identity) and every structure's "
     "xmiID / sofa / language is read; leniency of each new handle is probed with a foreign structure; every id the "
-    "CAS generates is compared with the ids of all sofas and of all indexed structures. A case is "
+    "CAS generates is compared with the ids of all sofas and of all indexed structures. In ~22 % of the cases the "
+    "shared TypeSystem is extended DURING the history (create_type of t.Late below DocumentAnnotation, below its "
+    "subtype t.Doc, or below Annotation; declaring the name twice): handles that already read / wrote the document "
+    "language, the document annotation of the view removed, then an instance of the late type added through an old or "
+    "a new handle of the view and the document language / index read through old and new handles. A case is "
     "non-trivial with >= 2 views, >= 3 handles and a mutation through a non-initial handle."
 )
 TRUSTED = [
@@ -36,7 +41,8 @@ TRUSTED = [
     "the index of a view is a bag here (order is C06/C07); select(DocumentAnnotation)[0] is modelled as the first "
     "indexed family instance: scenarios keep at most one DocumentAnnotation-family instance per view",
     "type-system facts are inputs: the names the CAS type system contains and the names of "
-    "DocumentAnnotation.descendants (C10)",
+    "DocumentAnnotation.descendants (C10); a declaration during the history (Views.declare) adds the name to the first "
+    "and, when its parent is in the second, to the second",
     "Python's slice semantics text[b:e] is used by the oracle as the reference for pyslice",
     "ghost log st_genlog of the model (ids generated, or explicit sofa ids accepted while free) is not observable",
 ]
@@ -45,6 +51,7 @@ ASSUMPTIONS = [
     "are the DocumentAnnotations the CAS creates itself)",
     "the CAS type system contains uima.tcas.DocumentAnnotation (always true: built-in)",
     "begin/end of a structure are not modified after it was indexed (remove looks the key up again)",
+    "a type declared during the history has a declared parent, and its instances are created after the declaration",
     "explicit xmiID / sofaNum arguments of create_view are Python ints; one below the generator's next value is taken "
     "as it is and may repeat a number in use (theorem C08_stale_explicit_id_repeats): sofa ids / numbers are only "
     "required to be pairwise distinct in histories whose explicit numbers were all free when passed",
@@ -63,7 +70,9 @@ TYPES = {
     "f_same": (2, "t.Tok", True, True),
     "f_top": (2, "x.Top", False, False),
     "f_docann": (2, DOCANN, True, True),
+    "late": (1, "t.Late", True, True),   # a type declared DURING the history (ops of kind "declare")
 }
+LATE = "t.Late"
 TS1_NAMES = ["t.Tok", "t.Doc", "t.Meta", "t.Base", DOCANN, "uima.cas.ByteArray"]
 FAMILY = [DOCANN, "t.Doc"]
 TEXTS = ["", "abc", "hello world", "0123456789", "naïve \U0001d11e clef", "x", "The quick brown fox"]
@@ -71,14 +80,20 @@ VIEW_NAMES = ["v2", "v3", "other", "_InitialView", "V2", "missing"]
 _TS = {}
 
 
+def _fresh_ts1():
+    from cassis import TypeSystem
+    ts1 = TypeSystem()
+    ts1.create_type("t.Tok", "uima.tcas.Annotation")
+    ts1.create_type("t.Doc", DOCANN)
+    ts1.create_type("t.Meta", "uima.cas.TOP")
+    ts1.create_type("t.Base", "uima.cas.AnnotationBase")
+    return ts1
+
+
 def _typesystems():
     if not _TS:
         from cassis import TypeSystem
-        ts1 = TypeSystem()
-        ts1.create_type("t.Tok", "uima.tcas.Annotation")
-        ts1.create_type("t.Doc", DOCANN)
-        ts1.create_type("t.Meta", "uima.cas.TOP")
-        ts1.create_type("t.Base", "uima.cas.AnnotationBase")
+        ts1 = _fresh_ts1()
         ts2 = TypeSystem()
         ts2.create_type("x.Foreign", "uima.tcas.Annotation")
         ts2.create_type("Tok", "uima.tcas.Annotation")
@@ -100,6 +115,7 @@ class Book:
         self.next_id, self.next_sofa, self.next_auto = 1, 1, 1000
         self.fresh = True        # every explicit xmiID / sofaNum given to create_view was free when passed
         self.known_ids = set()   # ids the CAS has handed out or been told about
+        self.ts_names, self.family = list(TS1_NAMES), list(FAMILY)   # the type system grows with "declare" ops
         self.objs = {}
         for i, o in enumerate(sc["objs"]):
             _ts, name, has_sofa, has_span = TYPES[o["t"]]
@@ -133,12 +149,16 @@ class Book:
         self.known_ids.add(xid)
 
     def family_in(self, view):
-        return [o for o in self.views[view]["index"] if self.objs[o]["type"] in FAMILY]
+        return [o for o in self.views[view]["index"] if self.objs[o]["type"] in self.family]
+
+    def usable(self, o):
+        """a structure of a type that is declared during the history exists only from the declaration on"""
+        return o in self.objs and (self.objs[o]["type"] != LATE or LATE in self.ts_names)
 
     def _add(self, h, o, keep):
         view, lenient = self.handles[h]
         ob = self.objs[o]
-        if not lenient and ob["type"] not in TS1_NAMES:
+        if not lenient and ob["type"] not in self.ts_names:
             return ["err", "ERuntime"]
         if keep and ob["xid"] is not None:
             if ob["xid"] >= self.next_id:
@@ -174,6 +194,15 @@ class Book:
                 return ["nosofa"]
             text = self.views[ob["sofa"]]["text"]
             return ["text", None if text is None else text[ob["b"]:ob["e"]]]
+        if k == "declare":
+            # one type system for all views and handles: a type declared now is known to every handle from now on, and
+            # a subtype of DocumentAnnotation (direct or not) counts as a document annotation from now on
+            if op["name"] in self.ts_names:
+                return ["err", "EValue"]
+            self.ts_names.append(op["name"])
+            if op["parent"] in self.family:
+                self.family.append(op["name"])
+            return ["ok"]
         h = op["h"]
         view = self.handles[h][0]
         v = self.views[view]
@@ -358,12 +387,98 @@ def _explicit_ids(sub, sc):
     return sc
 
 
+def _replay(sc):
+    book = Book(sc)
+    for op in sc["ops"]:
+        book.apply(op)
+    return book
+
+
+def _late_types(sub, sc):
+    """Two widenings, drawn from a stream of their own so that the rest of the scenarios stays what it was.
+    (1) constructor arguments that are given but falsy: sofa_mime="" next to a sofa_string, document_language="".
+    (2) in ~22 % of the cases the (shared) type system is extended DURING the history: a "declare" event creates t.Late
+    below DocumentAnnotation, below its subtype t.Doc or below Annotation - somewhere in the middle of the history or in
+    a tail that first lets an existing handle read / write the document language of a view, then removes the document
+    annotation of that view, declares the type, adds an instance through any (old or new) handle of the view and reads
+    the document language / index through old and new handles.  Instances of t.Late are only used after the
+    declaration; there is still at most one DocumentAnnotation-family instance per view."""
+    c = sc["ctor"]
+    if c.get("text") is not None and sub.random() < 0.2:
+        c["mime"] = ""
+    if c.get("lang") is not None and sub.random() < 0.15:
+        c["lang"] = ""
+    if sub.random() >= 0.22:
+        return sc
+    parent = sub.choice([DOCANN, DOCANN, "t.Doc", "uima.tcas.Annotation"])
+    decl = {"k": "declare", "name": LATE, "parent": parent}
+    late = []
+    for _ in range(sub.randint(1, 2)):
+        b = sub.randint(0, 6)
+        o = {"t": "late", "b": b, "e": b + sub.randint(0, 5)}
+        if sub.random() < 0.25:
+            o["xid"] = sub.choice([2, 5, 9, 20])
+        if parent in FAMILY and sub.random() < 0.75:
+            o["lang"] = sub.choice(["en", "de", "nl"])
+        sc["objs"].append(o)
+        late.append(len(sc["objs"]) - 1)
+    early = sub.random() < 0.4
+    if early:
+        sc["ops"].insert(sub.randint(0, len(sc["ops"])), dict(decl))
+    book = _replay(sc)
+
+    def emit(op):
+        sc["ops"].append(op)
+        return book.apply(op)
+
+    def on(view):
+        return sub.choice([i for i, h in enumerate(book.handles) if h[0] == view])
+
+    def lang_op(view):
+        if sub.random() < 0.6:
+            return {"k": "get_lang", "h": on(view)}
+        return {"k": "set_lang", "h": on(view), "v": sub.choice(["en", "fr", None])}
+
+    view = sub.choice(book.order)
+    for _ in range(sub.choice([0, 1, 1, 2])):
+        emit(lang_op(view))
+    for o in list(book.family_in(view)):
+        if sub.random() < 0.9:
+            emit({"k": "remove", "h": on(view), "o": o})
+    if not early:
+        emit(dict(decl))
+    if sub.random() < 0.5 and len(book.handles) < 6:
+        emit({"k": "get_view", "h": sub.randrange(len(book.handles)), "name": view})
+    for n, o in enumerate(late):
+        target = view if n == 0 else sub.choice(book.order)
+        if LATE in book.family and book.family_in(target):
+            free = [v for v in book.order if not book.family_in(v)]
+            if not free:
+                continue
+            target = sub.choice(free)
+        emit({"k": "add", "h": on(target), "o": o, "keep": sub.random() < 0.7})
+        if sub.random() < 0.4:
+            emit({"k": "covered", "o": o})
+    for _ in range(sub.randint(1, 3)):
+        x = sub.random()
+        if x < 0.7:
+            emit(lang_op(view))
+        elif x < 0.85:
+            emit({"k": "select_all", "h": on(view)})
+        else:
+            emit(lang_op(sub.choice(book.order)))
+    if sub.random() < 0.1:
+        emit(dict(decl))          # the name exists: ValueError
+    return sc
+
+
 def generate(rng, tier):
     n, max_ops = {"quick": (1000, 14), "thorough": (5000, 24), "search": (4000, 16)}[tier]
-    # a separate stream for the explicit-id decoration: everything else of the scenarios is what it was without it
+    # separate streams for the decorations: everything else of the scenarios is what it was without them
     sub = random.Random("C08-explicit-ids-%r" % (rng.getstate()[1][:6],))
+    sub2 = random.Random("C08-late-types-%r" % (rng.getstate()[1][:6],))
     for _ in range(n):
-        yield _explicit_ids(sub, _scenario(rng, max_ops))
+        yield _late_types(sub2, _explicit_ids(sub, _scenario(rng, max_ops)))
 
 
 # ------------------------------------------------------------------------------------------------ implementation
@@ -382,13 +497,17 @@ def _errkind(e):
 def run_impl(cassis, sc):
     from cassis import Cas
     ts1, ts2 = _typesystems()
+    if any(op["k"] == "declare" for op in sc["ops"]):
+        ts1 = _fresh_ts1()        # this history extends the type system: it gets one of its own
     tss = {1: ts1, 2: ts2}
     c = sc["ctor"]
     cas = Cas(typesystem=ts1, lenient=sc["lenient"], sofa_string=c.get("text"), sofa_mime=c.get("mime"),
               document_language=c.get("lang"))
     handles = [cas]
     objs = {}
-    for i, o in enumerate(sc["objs"]):
+
+    def make(i):
+        o = sc["objs"][i]
         tsn, name, _hs, has_span = TYPES[o["t"]]
         kw = {}
         if has_span:
@@ -399,7 +518,14 @@ def run_impl(cassis, sc):
         if o.get("xid") is not None:
             fs.xmiID = o["xid"]
         objs[i] = fs
-    label = {id(fs): i for i, fs in objs.items()}
+        label[id(fs)] = i
+
+    label = {}
+    for i, o in enumerate(sc["objs"]):
+        if o["t"] == "late":
+            objs[i] = None        # instantiated when its type is declared
+        else:
+            make(i)
     auto = [1000]
 
     def lab(fs):
@@ -435,6 +561,9 @@ def run_impl(cassis, sc):
         ob = []
         for o in sorted(objs):
             fs = objs[o]
+            if fs is None:
+                ob.append([o, {"xid": sc["objs"][o].get("xid"), "sofa": None, "lang": sc["objs"][o].get("lang")}])
+                continue
             sofa = getattr(fs, "sofa", None)
             ob.append([o, {"xid": fs.xmiID, "sofa": None if sofa is None else sofa.sofaID,
                            "lang": getattr(fs, "language", None)}])
@@ -444,7 +573,7 @@ def run_impl(cassis, sc):
     results = []
     for op in sc["ops"]:
         k = op["k"]
-        if op.get("o") is not None and op["o"] not in objs:
+        if op.get("o") is not None and objs.get(op["o"]) is None:
             # a structure the history says the CAS created itself was never seen through any handle
             results.append(["unseen_structure", op["o"]])
             snaps.append(observe())
@@ -452,6 +581,12 @@ def run_impl(cassis, sc):
         try:
             if k == "covered":
                 r = ["text", objs[op["o"]].get_covered_text()]
+            elif k == "declare":
+                ts1.create_type(op["name"], supertypeName=op["parent"])
+                for i, o in enumerate(sc["objs"]):
+                    if o["t"] == "late" and objs[i] is None:
+                        make(i)
+                r = ["ok"]
             else:
                 h = handles[op["h"]]
                 if k == "create_view":
@@ -582,12 +717,18 @@ def oracle(cassis, sc, obs):
         want = book.apply(op)
         where = f"op {i} {json.dumps(op)}"
         if got != want:
-            return f"result_{op['k']}: {where}: expected {want}, got {got}"
+            late = any(o["k"] == "declare" for o in sc["ops"][:i]) and op["k"] in ("get_lang", "set_lang", "add")
+            return (f"result_{op['k']}: {where}: expected {want}, got {got}" +
+                    (" [a type was declared during the history before this call]" if late else ""))
         msg = _check_snapshot(book, obs["snaps"][i + 1], where)
         if msg:
-            if any(o.get("xid") is not None or o.get("num") is not None for o in sc["ops"][:i + 1]):
+            if (msg.split(":")[0] in ("handle_state_xid", "handle_state_num", "handle_sofas", "structure_state", "sofa_ids_not_distinct")
+                    and any(o.get("xid") is not None or o.get("num") is not None for o in sc["ops"][:i + 1])):
                 msg += (" [an explicit xmiID / sofaNum was passed to create_view before: both shared generators must "
                         "from then on stay above it]")
+            if any(o["k"] == "declare" for o in sc["ops"][:i + 1]):
+                msg += (" [a type was declared during the history: the type system is shared, from then on every handle "
+                        "knows the type and counts a DocumentAnnotation subtype as a document annotation]")
             return msg
         # an id generated in this step is one no sofa and no structure held before (one generator for all handles)
         if book.next_id == generated_before + 1 and generated_before in held and not (op["k"] == "add" and op["keep"]):
@@ -650,6 +791,13 @@ def _gdelta(prev, cur):
 
 
 def _gop(op):
+    k = op["k"]
+    if k == "declare":
+        return f"(EDeclare {gstr(op['name'])} {gstr(op['parent'])})"
+    return f"(EOp {_gop1(op)})"
+
+
+def _gop1(op):
     k = op["k"]
     if k == "covered":
         return f"(OCovered {gn(op['o'])})"
@@ -742,7 +890,7 @@ def _valid(sc):
         for op in sc["ops"]:
             if "h" in op and op["h"] >= len(book.handles):
                 return False
-            if op.get("o") is not None and op["o"] not in book.objs:
+            if op.get("o") is not None and not book.usable(op["o"]):
                 return False
             if op["k"] == "set_arr" and op["v"] is not None and op["v"] not in book.objs:
                 return False
@@ -774,13 +922,29 @@ def _shrink_candidates(sc):
         c = json.loads(json.dumps(sc))
         c["ctor"] = {"text": None, "mime": None, "lang": None}
         yield c
+    last = len(sc["objs"]) - 1
+    if last >= 1 and not any(op.get("o") == last or (op["k"] == "set_arr" and op.get("v") == last) for op in ops):
+        c = json.loads(json.dumps(sc))
+        c["objs"].pop()
+        yield c
 
 
-def _book_after(sc):
+_book_after = _replay
+
+
+def _late_after_query(sc):
+    """a handle read / wrote the document language before the type was declared, and does so again while an instance
+    of the late subtype is the indexed document annotation of its view"""
     book = Book(sc)
+    queried, hit = set(), False
     for op in sc["ops"]:
+        if op["k"] in ("get_lang", "set_lang"):
+            if LATE not in book.ts_names:
+                queried.add(op["h"])
+            elif op["h"] in queried and any(book.objs[o]["type"] == LATE for o in book.family_in(book.handles[op["h"]][0])):
+                hit = True
         book.apply(op)
-    return book
+    return hit
 
 
 def _passed_explicit(sc):
@@ -825,6 +989,12 @@ def distribution(scenarios, observations):
             "create_view_explicit_sofaNum": sum(1 for s in scenarios for op in s["ops"] if op.get("num") is not None),
             "cases_generator_passed_explicit_id": sum(1 for s in scenarios if _passed_explicit(s)),
             "cases_with_stale_explicit_number": sum(1 for s in scenarios if not _book_after(s).fresh),
+            "constructor_empty_mime": sum(1 for s in scenarios if s["ctor"].get("mime") == "" and s["ctor"].get("text") is not None),
+            "constructor_empty_language": sum(1 for s in scenarios if s["ctor"].get("lang") == ""),
+            "cases_declaring_a_type": sum(1 for s in scenarios if any(op["k"] == "declare" for op in s["ops"])),
+            "adds_of_late_type": sum(1 for s in scenarios for op in s["ops"] if op["k"] == "add" and op["o"] < len(s["objs"])
+                                     and s["objs"][op["o"]]["t"] == "late"),
+            "cases_late_subtype_read_through_earlier_handle": sum(1 for s in scenarios if _late_after_query(s)),
             "foreign_adds": sum(1 for s in scenarios for op in s["ops"] if op["k"] == "add" and op["o"] < len(s["objs"])
                                 and s["objs"][op["o"]]["t"].startswith("f_"))}
 
@@ -838,7 +1008,9 @@ MANIFEST = {
                   "operations on one view never change another, one id space (an id given to create_view(name, xmiID=k) included: "
                   "the shared generator is moved past it and never hands it out), the document annotation is created once, "
                   "covered text is the Python slice of the text of the view of the last add, a strict handle refuses "
-                  "unknown type names; the model is tied to /repo on every run by evaluating it inside Coq on the histories "
+                  "unknown type names; the constructor's sofa_string / sofa_mime are writes like any other (any given MIME type, '' "
+                  "included); the type system may grow during the history and an instance of a DocumentAnnotation subtype "
+                  "declared after handles were obtained and used is found through every one of them; the model is tied to /repo on every run by evaluating it inside Coq on the histories "
                   "the implementation was run on, with the state observed through every live handle after every step.",
     "level_note": "Trusted: Coq kernel + vm_compute; hand-written model coq/Views.v; harness driving the public API and rendering "
                   "cases; index as a bag (order is C06/C07); at most one DocumentAnnotation-family instance per view in "
